@@ -119,13 +119,17 @@ def cbcDecryptBlocks (P : Prims) (key : Bytes) : Nat → Bytes → Bytes → Out
     (cbcDecryptBlocks P key n c (data.drop 16)).bind fun rest =>
     .ok (xorBytes d prev ++ rest)
 
-/-- CBC encryption of whole blocks -/
-def cbcEncryptBlocks (P : Prims) (key : Bytes) : Nat → Bytes → Bytes → Out Bytes
+/-- CBC encryption of whole blocks with the keyed block function `enc` -/
+def cbcEncryptBlocksF (enc : Bytes → Out Bytes) : Nat → Bytes → Bytes → Out Bytes
   | 0, _, _ => .ok []
   | n + 1, prev, data =>
-    (P.aesEnc key (xorBytes (data.take 16) prev)).bind fun c =>
-    (cbcEncryptBlocks P key n c (data.drop 16)).bind fun rest =>
+    (enc (xorBytes (data.take 16) prev)).bind fun c =>
+    (cbcEncryptBlocksF enc n c (data.drop 16)).bind fun rest =>
     .ok (c ++ rest)
+
+/-- CBC encryption of whole blocks -/
+def cbcEncryptBlocks (P : Prims) (key : Bytes) (n : Nat) (prev data : Bytes) : Out Bytes :=
+  cbcEncryptBlocksF (P.aesEnc key) n prev data
 
 /-- `block_padding::Pkcs7::unpad` through `unpad_blocks` (strict): `Err` for no blocks, a last byte of 0
     or above 16, or padding bytes that differ -/
